@@ -446,6 +446,34 @@ func init() {
 		r.States, r.Transitions, r.Distinct = r.Executions, r.Executions, len(r.Outcomes)
 		return r
 	}})
+	// RemoveWorkers(1) when the worker it takes from the ring has died meanwhile: the pool shrinks by that one slot,
+	// nobody else is stopped, and traffic afterwards is served by the remaining workers
+	for _, size := range []int64{2, 3} {
+		size := size
+		c19Scenario(fmt.Sprintf("size%d-remove-worker-that-is-dead", size), 1, 2, func(w *World) {
+			var cmdErr error
+			var n int64
+			pb, pool, _ := w.spawnPool(poolCfg{size: size, onPoolMsg: func(p *poolB, from gen.PID, m any) error {
+				if m == "remove" {
+					n, cmdErr = p.RemoveWorkers(1)
+				}
+				return nil
+			}})
+			w.Setup("kill-w1", func() { w.n.Kill(w.pids["W1"]) })
+			w.Setup("remove", func() { w.n.SendWithPriority(pool, "remove", gen.MessagePriorityHigh) })
+			var sent []c19sent
+			c19client(w, "C1", pool, &sent, false, "m1", "m2", "m3")
+			c19client(w, "C2", pool, &sent, true, "q1")
+			w.ex.Thread("G1", func() { w.n.Send(w.pids["C1"], "go") })
+			w.ex.Thread("G2", func() { w.n.Send(w.pids["C2"], "go") })
+			w.Check = func() {
+				if cmdErr != nil || n != size-1 {
+					w.ex.Fail("resize-result", "RemoveWorkers(1) on a pool of %d (whose first worker had died) returned (%d, %v), want (%d, nil)", size, n, cmdErr, size-1)
+				}
+				c19check(w, pb, sent, false, int(size-1))
+			}
+		})
+	}
 	// AddWorkers / RemoveWorkers issued by the pool itself (high-priority command) during traffic
 	for _, cmd := range []string{"add", "remove"} {
 		cmd := cmd
